@@ -206,6 +206,15 @@ def decide(pid, tier, seed, replay, t0):
         "assumptions": res.assumptions + list(getattr(mod, "ASSUMPTIONS", [])),
         "wall_s": round(wall, 3), "violations": reported,
     }
+    # the evidence schema fixes the type of a few coverage keys; a runner that reuses one of those names for something
+    # else would make the whole file invalid ("treated as no evidence"), so refuse to write such a file
+    int_keys = ("evaluations", "distinct_nontrivial", "obligations", "discharged", "programs", "states", "transitions",
+                "traces_validated_against_impl", "disagreements_checked")
+    for k in int_keys:
+        if k in cov and (isinstance(cov[k], bool) or not isinstance(cov[k], int) or cov[k] < 0):
+            raise core.HarnessError(f"coverage[{k!r}] must be a non-negative integer (evidence schema), got {type(cov[k]).__name__}")
+    if not isinstance(cov.get("samples"), list) or not cov.get("samples"):
+        raise core.HarnessError("coverage['samples'] must be a non-empty list (evidence schema)")
     edir = core.VERIF / "evidence"
     edir.mkdir(exist_ok=True)
     (edir / f"{pid}.json").write_text(json.dumps(ev, indent=1, default=str, ensure_ascii=False))
